@@ -18,6 +18,10 @@ def to_constant(value: Union[InnerConstant, CodeType]) -> ConstantValue:
 def from_constant(value: ConstantValue) -> object:
     if isinstance(value, CodeData):
         return value.to_code()
+    # Creating a code object interns the strings inside of tuple constants in place,
+    # so hand it a new tuple, not the one which belongs to the code data
+    if isinstance(value, tuple):
+        return tuple(map(from_constant, value))
     return value
 
 
